@@ -113,7 +113,8 @@ def check_spec(spec: NetSpec, label, st: Stats, plan):
                 case = {"spec": spec.describe(), "config": label, "P": P, "val": {f"{k[0]}.{k[1]}": v for k, v in val.items()},
                         "engine": "numpy", "edited": emode}
                 try:
-                    nxt, built, raw = np_step(spec, val, P, built=build_edited(spec, P, emode))
+                    eng_ = env.numpy_engine(np.float64(27.5))  # the SAME engine object before and after the edit
+                    nxt, built, raw = np_step(spec, val, P, built=build_edited(spec, P, emode, engine=eng_), engine=eng_)
                 except Exception as e:  # noqa: BLE001
                     problems.append((f"{PROP}/exception/{exc_site(e)}/{type(e).__name__}", f"numpy (network edited in place after a "
                                      f"step): {exc_text(e)}", case))
